@@ -33,6 +33,7 @@ import flask  # type: ignore
 from flask.views import MethodView  # type: ignore
 
 from dashlive.server import models
+from dashlive.server.events.factory import EventFactory
 from dashlive.server.routes import routes, Route
 from dashlive.server.options.container import OptionsContainer
 from dashlive.server.options.repository import OptionsRepository
@@ -107,6 +108,8 @@ class RequestHandlerBase(MethodView):
         if features is not None:
             options.remove_unsupported_features(features)
         options.add_field('mode', mode)
+        # validates the parameters of the selected events (raises ValueError)
+        EventFactory.create_event_generators(options)
         return options
 
     def has_http_range(self) -> bool:
